@@ -1,5 +1,2 @@
-import Hive.Base.Proto
-open Hive.Proto
-
-/-- Placeholder driver: answers `unimplemented` to every request. -/
-def main : IO Unit := run () (fun s _ => (s, "unimplemented"))
+import Hive.Model.SerixProto
+def main : IO Unit := Hive.Proto.run (none : Option Hive.Serix.Ty) Hive.Serix.stepLine
